@@ -224,7 +224,7 @@ def scenario(desc, spec, how, prefill, invalidate_idx):
                 problems.append(('jug execute started the consumer of a derived object before everything underneath was stored',
                                  {'exit': repr(code), 'consumer_called': bool(calls), 'consumer_stored': ch in keys,
                                   'missing': sorted(hx(h) for h in occ if not w.is_stored(h)), 'log': err[-600:]}))
-        else:
+        elif not (w.mutating and how == 'nested'):
             if ref[0] == 'ok':
                 if ch not in keys or len(calls) != 1 or code not in (None, 0):
                     problems.append(('jug execute did not run a consumer whose underlying tasks were all stored',
@@ -247,7 +247,9 @@ def scenario(desc, spec, how, prefill, invalidate_idx):
             if k is not None and not occ <= set(k):
                 problems.append(('the consumer function was entered while a task underneath its argument had no result',
                                  {'missing': sorted(hx(h) for h in occ - set(k))}))
-        if ref[0] == 'ok':
+        if w.mutating and how == 'nested':
+            pass        # the view is evaluated twice and its first evaluation changes the defaultdict underneath
+        elif ref[0] == 'ok':
             if ch not in keys:
                 problems.append(('jug execute did not produce the consumer\'s result', {'exit': repr(code), 'log': err[-600:]}))
             else:
@@ -319,6 +321,17 @@ def gen_sibling_group(rng):
                        lambda b: ('iteratetask', b, 2, 0), lambda b: ('getitem', b, ('task', 2)), lambda b: ('getitem', b, ('task', 3)),
                        lambda b: ('custom', idx(b, 0)), lambda b: ('getitem', b, ('getitem', ('task', 1), ('val', 0)))])
     specs = [last(p(root)) for p in paths]
+    if rng.random() < 0.45:
+        # the same base sliced in ways that look alike: negative strides with no / zero / explicit start and stop
+        base = rng.choice([root] + [p(root) for p in paths])
+        pool = [(None, None, -1), (0, None, -1), (None, None, -2), (0, None, -2), (-1, None, -1), (1, None, -1), (None, 0, -1),
+                (None, None, None), (None, None, 1), (0, None, None), (None, 2, None), (0, 2, None), (0, 2, 1), (None, None, 2), (0, None, 2),
+                (None, -1, -1), (2, None, -1)]
+        k = rng.choice([-1, -1, -2, -3])
+        must = [(None, None, k), (0, None, k), (-1, None, k)]      # "no start" is not "start 0" for a negative stride
+        specs = [idx(base, slice(*sl)) for sl in must + [x for x in rng.sample(pool, rng.randint(2, 5)) if x not in must]]
+        if rng.random() < 0.5:
+            specs = [idx(x, 0) if rng.random() < 0.5 else ('fun', x, 'wrap') for x in specs]      # the slice one level down
     extra = rng.random()
     if extra < 0.35:
         specs.append(read_back(specs[0]))                       # the same expression built again
@@ -333,6 +346,19 @@ def gen_sibling_group(rng):
     return specs
 
 
+def _ix(b, v):
+    return ('getitem', b, ('val', v))
+
+
+# minimised past failures of the consumer-hash section (seeded C16-m3, C16-m8), run first in every tier
+HASH_CORPUS = [
+    [_ix(_ix(('task', 0), k), 0) for k in ('pos', 'neg', 0, 1)] + [_ix(_ix(_ix(('task', 0), 'pairs'), j), 1) for j in (0, 1)],
+    [_ix(('task', 1), slice(*sl)) for sl in [(None, None, -1), (0, None, -1), (None, None, -2), (0, None, -2), (-1, None, -1),
+                                              (None, 2, None), (0, 2, None), (0, 2, 1), (None, None, None), (None, None, 1)]],
+    [_ix(_ix(_ix(('task', 0), 'pairs'), slice(*sl)), 0) for sl in [(None, None, -1), (0, None, -1), (2, None, -1), (None, None, -3), (0, None, -3)]],
+]
+
+
 def read_back(spec):
     return depsgen.read_spec(depsgen.pyrepr(spec))
 
@@ -342,18 +368,25 @@ def hash_pairs(w, specs, how):
     hashes, consumers of the same expression the same hash (specs outside the fragment are left out)"""
     problems = []
     items = []
+    extra = {}
     for sp in specs:
         cn = w.canon_spec(sp)
         if cn is None:
             continue
         c = depsgen.consumer_task(w.realise(sp), how)
         items.append((sp, cn, c.hash()))
+        # slices compared up to what Python guarantees equal for every length; value with everything stored
+        extra[id(sp)] = (w.canon_spec(sp, norm=True), w.reference(sp)[0])
     for a in range(len(items)):
         for b in range(a + 1, len(items)):
             (s1, c1, h1), (s2, c2, h2) = items[a], items[b]
-            if c1 != c2 and h1 == h2:
+            (n1, r1), (n2, r2) = extra[id(s1)], extra[id(s2)]
+            if n1 != n2 and h1 == h2:
                 problems.append(('consumers of two different derived objects have the same hash (one of them would never run and get the other\'s result)',
                                  {'spec_a': depsgen.pyrepr(s1), 'spec_b': depsgen.pyrepr(s2), 'hash': hx(h1)}))
+            elif h1 == h2 and r1[0] == 'ok' and r2[0] == 'ok' and not same(r1[1], r2[1]):
+                problems.append(('consumers of two derived objects with different values have the same hash',
+                                 {'spec_a': depsgen.pyrepr(s1), 'spec_b': depsgen.pyrepr(s2), 'value_a': repr(r1[1]), 'value_b': repr(r2[1])}))
             if c1 == c2 and h1 != h2:
                 problems.append(('the same derived expression built twice gives its consumers different hashes',
                                  {'spec_a': depsgen.pyrepr(s1), 'spec_b': depsgen.pyrepr(s2)}))
@@ -365,6 +398,8 @@ def hash_group(desc, specs, how, execute=True):
     dict store: every consumer has its OWN result = f(reference value of its own argument), one entry per
     distinct consumer."""
     w = depsgen.World(None, desc=desc, dump=False)
+    for t in w.all_tasks():
+        w._stored[t.hash()] = True
     problems, items = hash_pairs(w, specs, how)
     if not execute or not items:
         return problems
@@ -398,9 +433,11 @@ def hash_group(desc, specs, how, execute=True):
         consumer_keys = keys - set(t.hash() for t in w.all_tasks())
         if not consumer_keys <= set(h for _, _, h in items):
             problems.append(('store contains a key that is not a task (a derived object was stored)', {'keys': sorted(hx(k) for k in consumer_keys - set(h for _, _, h in items))}))
-        ndistinct = len(set(cn for (s_, cn, h) in items if h in expected_keys))
-        if len(consumer_keys & expected_keys) != ndistinct:
-            problems.append(('the store does not hold one result per distinct consumer', {'entries': len(consumer_keys & expected_keys), 'distinct_consumers': ndistinct}))
+        # slices that Python guarantees equal (t[:3], t[0:3:1]) may or may not share an entry
+        nmax = len(set(cn for (s_, cn, h) in items if h in expected_keys))
+        nmin = len(set(w.canon_spec(s_, norm=True) for (s_, cn, h) in items if h in expected_keys))
+        if not nmin <= len(consumer_keys & expected_keys) <= nmax:
+            problems.append(('the store does not hold one result per distinct consumer', {'entries': len(consumer_keys & expected_keys), 'distinct_consumers': [nmin, nmax]}))
     return problems
 
 
@@ -552,6 +589,90 @@ class Collector:
         return nontriv, True
 
 
+def history(ck, col, w, specs_hows, rng, family):
+    """One process, one set of view OBJECTS, two store states: evaluate every view, let the underlying tasks be
+    recomputed with other results (removed / added / changed THROUGH THE STORE, as another worker or an
+    invalidate + re-run would), Task.unload() or a fresh Task.load() on the base tasks, evaluate the SAME
+    objects again: the second value must be the operation applied to the CURRENT results.  The second
+    evaluation is also a Coq case against the second store."""
+    built = []
+    for spec, how in specs_hows:
+        try:
+            o = w.realise(spec)
+            built.append((spec, how, o, depsgen.consumer_task(o, how)))
+        except Exception:
+            continue
+    if not built:
+        return
+    desc1 = w.describe()
+    w.unload_all()
+    first = [observe_value(o) for _, _, o, _ in built]
+    desc2 = w.gen_state2(rng) if rng is not None else None
+    if desc2 is None:
+        # deterministic variant for the fixed worlds: rotate the results, shift the mapped values
+        d = w.desc
+        desc2 = {'results': d['results'][1:] + d['results'][:1], 'stored': [True] * len(d['stored']),
+                 'maps': [{'xs': md['xs'], 'bs': md['bs'], 'shift': 100, 'stored': [True] * len(md['stored'])} for md in d['maps']]}
+    w.apply_state(desc2)
+    reload_mode = 'unload' if rng is None or rng.random() < 0.6 else 'load'
+
+    def reload():
+        # what this process does to see the new results: on the base TASKS only (nothing ever calls Tasklet.unload)
+        for t in w.all_tasks():
+            if reload_mode == 'load' and w.is_stored(t.hash()):
+                t.load()
+            else:
+                t.unload()
+    st2 = w.st_literal()
+    for (spec, how, o, c), obs1 in zip(built, first):
+        reload()        # every evaluation starts from the store (a defaultdict result may be changed by a reader)
+        obs2 = observe_value(o)
+        ref2, reads, oom = w.reference(spec)
+        occ = w.occ(spec)
+        lit = w.lit(spec)
+        ck.count(family + ':history')
+        rp = lambda what, details: dict(replay_obj(w, spec, how, what, 'impl-violation', dict(details, arg=lit)), world=desc1, world2=depsgen.pyrepr(desc2),
+                                        reload=reload_mode)
+        if not same_outcome(obs2, ref2):
+            ck.violation(rp('value() of a derived object evaluated again after its base was recomputed is not the operation applied to the current results',
+                            {'first': repr(obs1), 'observed': repr(obs2), 'expected': repr(ref2)}))
+        exp_run = all(w.is_stored(h) for h in occ)
+        w.unload_all()
+        can_run = c.can_run()
+        if can_run != exp_run:
+            ck.violation(rp('can_run() of the consumer after its base was recomputed is %s, expected %s' % (can_run, exp_run), {}))
+        elif can_run and not (w.mutating and how == 'nested'):
+            # (a view over a defaultdict that invents the missing entry gives another answer the second time it is
+            #  evaluated: the nested consumer holds the view twice)
+            reload()
+            try:
+                got = ('ok', c.run(save=False))
+            except AssertionError:
+                got = ('missing',)
+            except Exception as e:
+                got = ('raised', type(e).__name__)
+            if ref2[0] == 'ok':
+                a = depsgen.canon(ref2[1])
+                exp = ('ok', {'pos': ('consumed', (a,), []), 'kw': ('consumed', (), [('k', a)]), 'nested': ('consumed', (1, [a, {'x': (a,)}]), [])}[how])
+            else:
+                exp = ref2[:1]
+            if repr(got[:2] if got[0] == 'ok' else got[:1]) != repr(exp):
+                ck.violation(rp('a consumer run after its base was recomputed received stale or wrong data', {'observed': repr(got), 'expected': repr(exp)}))
+            c.unload()
+        if oom:
+            continue
+        try:
+            obs_lit = outcome_lit(obs2, w)
+        except ValueError:
+            continue
+        deps = [d.hash() for d in c.dependencies()]
+        ck.distinct((st2, lit), True)
+        col.cases.append('(%s, %s, %s, %s)' % (st2, lit, obs_lit, core.listlit(['%d%%positive' % w.tids(h) for h in deps])))
+        col.meta.append(dict(replay_obj(w, spec, how, '', 'correspondence', {'arg': lit, 'store': st2, 'observed': repr(obs2),
+                                                                             'deps': sorted(set(w.tids(h) for h in deps))}),
+                             world=desc1, world2=depsgen.pyrepr(desc2), reload=reload_mode))
+
+
 def check_store_keys(ck, w):
     keys = set(w.store.list())
     legit = set(t.hash() for t in w.all_tasks())
@@ -578,6 +699,7 @@ def run(ck):
         for spec in CORPUS + enum_specs(2) + [('getitem', ('task', 0), ('val', sl)) for sl in (slice(0, 1), slice(None, None, -1))]:
             col.case(w, spec, 'pos', cache, 'subclass-world')
         check_store_keys(ck, w)
+        history(ck, col, w, [(sp, 'pos') for sp in CORPUS + enum_specs(2)], None, 'subclass-world')
     for desc in (EXH_WORLDS[:2] if ck.tier != 'thorough' else EXH_WORLDS):
         w = depsgen.World(None, desc=desc)
         cache = {}
@@ -586,18 +708,22 @@ def run(ck):
         for spec in specs:
             col.case(w, spec, 'pos', cache, 'exhaustive')
         check_store_keys(ck, w)
+        history(ck, col, w, [(sp, 'nested') for sp in CORPUS + enum_specs(3)], None, 'exhaustive')
     ck.count('exhaustive-specs', len(specs))
     # ---- random
     for wi in range(nworlds):
         w = depsgen.World(ck.rng, nbase=4, nmaps=1, stored_prob=ck.rng.choice([1.0, 0.85, 0.6]))
         cache = {}
         group = []
+        hist = []
         for k in range(per):
             spec = w.gen_spec(3)
             how = ck.rng.choice(['pos', 'pos', 'pos', 'kw', 'nested'])
             nontriv, added = col.case(w, spec, how, cache, 'spec')
             if w.canon_spec(spec) is not None:
                 group.append(spec)
+            if nontriv and len(hist) < 4:
+                hist.append((spec, how))
             # (a container subclass holding Task objects is hashed by pickling them: not a usable jugfile argument)
             if nontriv and "'subopaque'" not in repr(spec) and len(scen_pool) < 4 * nscen and ck.rng.random() < 0.5:
                 scen_pool.append((w.desc, spec))
@@ -605,6 +731,10 @@ def run(ck):
         check_store_keys(ck, w)
         if len(group) >= 2:
             hash_pool.append((w.desc, group))
+        if hist:
+            desc_before = w.desc
+            history(ck, col, w, hist, ck.rng, 'spec')
+            check_store_keys(ck, w)
     cases, meta = col.cases, col.meta
     if meta:
         ck.sample({k: meta[len(meta) // 2][k] for k in ('arg', 'store', 'observed', 'deps')})
@@ -624,9 +754,12 @@ def run(ck):
                                'scenario': {'prefill': prefill, 'invalidate': inv}}, **details))
     ck.count('scenarios(execute+invalidate)', len(scen_pool[:nscen]))
     # ---- consumers of distinct views are distinct tasks: sibling groups (hash oracle + real execute) ...
-    for gi in range(ck.n(24, 400)):
-        specs = gen_sibling_group(ck.rng)
-        how = ck.rng.choice(['pos', 'pos', 'kw', 'nested'])
+    ngroups = ck.n(24, 400)
+    for gi in range(ngroups):
+        if gi < len(HASH_CORPUS):
+            specs, how = HASH_CORPUS[gi], ('pos', 'kw', 'nested')[gi % 3]
+        else:
+            specs, how = gen_sibling_group(ck.rng), ck.rng.choice(['pos', 'pos', 'kw', 'nested'])
         ck.count('hash-group:size', len(specs))
         try:
             problems = hash_group(HASH_WORLD, specs, how, execute=True)
@@ -640,6 +773,8 @@ def run(ck):
     npairs = 0
     for desc, group in hash_pool:
         w = depsgen.World(None, desc=desc, dump=False)
+        for t in w.all_tasks():
+            w._stored[t.hash()] = True
         try:
             problems, items = hash_pairs(w, group, 'pos')
         except Exception as e:
@@ -673,6 +808,30 @@ def replay(obj):
             print('consumer hashes and stored results are as expected on this group')
         jugrun.fresh()
         return 1 if problems else 0
+    if 'world2' in obj:
+        # a history: evaluate, recompute the base tasks with other results, unload/load, evaluate the same object again
+        w = depsgen.World(None, desc=depsgen.read_spec(obj['world']))
+        spec = depsgen.read_spec(obj['spec'])
+        o = w.realise(spec)
+        w.unload_all()
+        obs1 = observe_value(o)
+        w.apply_state(depsgen.read_spec(obj['world2']))
+        for t in w.all_tasks():
+            if obj.get('reload') == 'load' and w.is_stored(t.hash()):
+                t.load()
+            else:
+                t.unload()
+        obs2 = observe_value(o)
+        ref2 = w.reference(spec)[0]
+        print('argument          :', w.lit(spec))
+        print('first evaluation  :', obs1)
+        print('second evaluation :', obs2, ' (after the underlying tasks were recomputed and %sed)' % obj.get('reload', 'unload'))
+        print('expected now      :', ref2)
+        jugrun.fresh()
+        if not same_outcome(obs2, ref2):
+            print('VIOLATED: value() of a derived object evaluated again after its base was recomputed is not the operation applied to the current results')
+            return 1
+        return 0
     if 'world' not in obj or 'spec' not in obj:
         print('replay: nothing to re-execute in this file:', obj.get('no_longer_checks', obj))
         return 2
